@@ -762,8 +762,26 @@ func (v *Verifier) jump(st *State, b *ssa.BasicBlock) bool {
 }
 
 // havocNamed havocs a heap (by Go type name) or a single local cell (by variable name).
-func (v *Verifier) havocNamed(st *State, fr *Frame, name string) {
+// allocOnStack finds the local variable name (an alloc) in fr's function or, failing that, in a callee inlined
+// below it, innermost first; the alloc must have been executed on this path.
+func allocOnStack(st *State, fr *Frame, name string) *ssa.Alloc {
 	if a := findAlloc(fr.fn, name); a != nil {
+		if _, ok := st.env[a]; ok {
+			return a
+		}
+	}
+	for i := len(st.frames) - 1; i >= 1; i-- {
+		if a := findAlloc(st.frames[i].fn, name); a != nil {
+			if _, ok := st.env[a]; ok {
+				return a
+			}
+		}
+	}
+	return findAlloc(fr.fn, name)
+}
+
+func (v *Verifier) havocNamed(st *State, fr *Frame, name string) {
+	if a := allocOnStack(st, fr, name); a != nil {
 		cell := sortOf(elemType(a.Type()))
 		ref := v.val(st, a)
 		f := Fresh(name, cell)
@@ -776,7 +794,11 @@ func (v *Verifier) havocNamed(st *State, fr *Frame, name string) {
 		st.setHeap(cell, Store(st.getHeap(cell), ref, f))
 		return
 	}
-	if cell, ref, et, ok := evalModTarget(v.specEnv(st, fr), name); ok {
+	menv := v.specEnv(st, fr)
+	if st.top() != fr {
+		menv.fr2 = st.top()
+	}
+	if cell, ref, et, ok := evalModTarget(menv, name); ok {
 		f := Fresh("cell", cell)
 		if v.havocked != nil {
 			v.havocked[f] = true
@@ -919,7 +941,7 @@ func (v *Verifier) frameCheck(st *State, base map[string]*Term, fresh []*Term, l
 	allow := map[string]bool{}
 	cells := map[string][]*Term{}
 	for _, a := range allowed {
-		if al := findAlloc(fr.fn, a); al != nil {
+		if al := allocOnStack(st, fr, a); al != nil {
 			cell := sortOf(elemType(al.Type()))
 			cells[heapName(cell)] = append(cells[heapName(cell)], v.val(st, al))
 			continue
@@ -947,6 +969,9 @@ func (v *Verifier) frameCheck(st *State, base map[string]*Term, fresh []*Term, l
 				env = v.entryEnv()
 			} else {
 				env = v.specEnv(st, fr)
+				if st.top() != fr {
+					env.fr2 = st.top()
+				}
 			}
 			if cell, ref, _, ok := evalModTarget(env, a); ok {
 				cells[heapName(cell)] = append(cells[heapName(cell)], ref)
